@@ -734,6 +734,7 @@ fn single_generator_verdict_pass(w: &Walker, sink: &Sink, rep: &mut Report, cap:
     let mut g = MoveGenerator::new();
     let mut asked = 0u64;
     let mut arbitrations = 0u32;
+    let mut clock_prequeries = 0u64;
     let before = sink.count();
     for k in keys.iter() {
         if sink.count() > before + 500 {
@@ -744,6 +745,17 @@ fn single_generator_verdict_pass(w: &Walker, sink: &Sink, rep: &mut Report, cap:
         let mut board = build_board(&pos);
         let turn = color_of(pos.stm);
         asked += 1;
+        // every 8th state is first put to the same generator with 100 plies on the half-move clock
+        // (a drawn game: that verdict is C16's subject and is not judged here) — what the generator
+        // then says about the position with a fresh clock must not be coloured by it
+        if asked % 8 == 0 {
+            let mut pc = pos.clone();
+            pc.halfmove = 100;
+            pc.ply = if pc.stm == Side::White { 200 } else { 201 };
+            let mut bc = build_board(&pc);
+            let _ = guarded(|| evaluate::game_ending(&mut bc, &mut g, turn));
+            clock_prequeries += 1;
+        }
         let legal_empty = pos.legal_moves().is_empty();
         let want = if legal_empty {
             if pos.in_check(pos.stm) {
@@ -783,6 +795,7 @@ fn single_generator_verdict_pass(w: &Walker, sink: &Sink, rep: &mut Report, cap:
         }
     }
     rep.add("single_generator_pass_states", asked);
+    rep.add("states_first_asked_with_an_exhausted_clock", clock_prequeries);
     rep.transitions += asked;
     if total > cap {
         rep.notes.push(format!("single-generator pass: {} of {} explored states (every {}-th in key order)", asked, total, total / cap + 1));
